@@ -45,6 +45,7 @@ type HarnessConf struct {
 	ThoroughOnly bool         `json:"thorough_only,omitempty"`
 	MaxPaths   int            `json:"max_paths,omitempty"`
 	Unwind     int            `json:"unwind,omitempty"`
+	Solver     string         `json:"solver,omitempty"`
 }
 
 type PropConf struct {
@@ -188,6 +189,12 @@ func cmdCheck(args []string) int {
 	}
 	id := args[0]
 	fs.Parse(args[1:])
+	solverSet := false
+	fs.Visit(func(f *flag.Flag) {
+		if f.Name == "solver" {
+			solverSet = true
+		}
+	})
 	start := time.Now()
 	seed := 0
 	fmt.Sscanf(os.Getenv("VERIF_SEED"), "%d", &seed)
@@ -293,11 +300,15 @@ func cmdCheck(args []string) int {
 			budget = 90 * time.Minute
 			timeout = 300000
 		}
+		hsolver := *solver
+		if h.Solver != "" && !solverSet {
+			hsolver = h.Solver
+		}
 		ex := &interp.Explorer{
 			Eng: eng, Fn: fn, Name: h.Func, Params: params, Known: known,
 			Limits: interp.Limits{MaxPaths: maxPaths, MaxDepth: 4000, MaxSteps: 20_000_000, Unwind: unwind, MaxViolPerLb: 3,
 				Deadline: time.Now().Add(budget)},
-			Workers: *workers, Solver: *solver, Timeout: timeout,
+			Workers: *workers, Solver: hsolver, Timeout: timeout,
 		}
 		hs := time.Now()
 		ex.Run()
